@@ -39,7 +39,7 @@ func main() {
 		}
 	}
 	scen = append(scen, netsim.Scenario{Cfg: netsim.Config{Name: "4x1-valset-change", Powers: []int64{1, 1, 1, 1}, Byz: []int{3}, ByzMenu: true, TargetHeight: 5, MaxRound: 4, MaxSteps: 2000,
-		ValScript: map[uint64][]int64{1: {3, 1, 1, 1}, 2: {3, 1, 1, 0}}}, Bound: b - 1})
+		ValScript: map[uint64][]int64{1: {1, 3, 1, 1}, 2: {1, 3, 1, 0}}}, Bound: b - 1})
 	for _, turn := range []int{2, 3} {
 		scen = append(scen, netsim.Scenario{Cfg: netsim.Config{Name: fmt.Sprintf("solo-turn%d-arrival-orders", turn), Powers: []int64{1, 1, 1, 1}, SoloTurn: turn, Driver: "orders", TargetHeight: 1, MaxRound: 8, MaxSteps: 1500}, Bound: 0})
 	}
